@@ -188,11 +188,13 @@ func (s *CollapsingHighestDenseStore) Clear() {
 }
 
 func (s *CollapsingHighestDenseStore) Reweight(w float64) error {
-	maxIndex := s.maxIndex
+	minIndex, maxIndex := s.minIndex, s.maxIndex
 	err := s.DenseStore.Reweight(w)
-	if s.IsEmpty() || s.maxIndex != maxIndex {
-		// The counts of the highest bins, which the collapsed bin is one of, may
-		// have underflowed to zero (possibly all the counts).
+	if s.IsEmpty() || s.minIndex != minIndex || s.maxIndex != maxIndex {
+		// Counts have underflowed to zero (possibly all of them) and the index
+		// range has shrunk: the bins no longer cover the whole array up to the
+		// collapsed bin, which the collapsed state assumes, and there is room
+		// again for higher indices.
 		s.isCollapsed = false
 	}
 	return err
